@@ -140,7 +140,7 @@ func (b *SimBtcWallet) CreateOpeningTransaction(p *swap.OpeningParams) (string, 
 	if lay.Change && lay.SpendChange && idx != 0 {
 		w.Sim.After(ms(45000), "wallet", "spend-change", func() { w.BTC.SpendPlain(n.ID, txid, 0) })
 	}
-	w.Observe(&Obs{Node: n.ID, Inc: n.inc, Kind: "wallet.opening", Str: txid, Num: int64(idx), Tx: &TxObs{Chain: "btc", TxID: txid, Hex: rawHex, Kind: "opening"}})
+	w.Observe(&Obs{Node: n.ID, Inc: n.inc, Kind: "wallet.opening", Str: txid, Num: int64(idx), Tx: &TxObs{Chain: "btc", TxID: txid, Hex: rawHex, Kind: "opening", Err: ackLost(f)}})
 	if f != nil && f.Kind == "errafter" {
 		return "", "", "", 0, 0, errors.New("wallet rpc: publish acknowledged late (timeout)")
 	}
